@@ -628,9 +628,9 @@ Proof.
   destruct (role_setting_of_ok _ (ps_role _ PS)) as [dr DR].
   exists sl, dr.
   assert (DS : match p_default_shard p with DShard d => 0 <= d < Z.of_nat (length (p_shards p)) | _ => True end).
-  { pose proof (default_shard_ok p V) as D. destruct T as [T TM].
+  { pose proof (default_shard_ok p V) as D. destruct T as [T _].
     destruct (p_default_shard p) as [d| |]; try exact I. split; assumption. }
-  split; [|split; [exact F|apply explicit_servable; [exact F|exact DS|exact TM]]].
+  split; [|split; [exact F|apply explicit_servable; [exact F|exact DS|exact (proj2 T)]]].
   unfold build_pool_user. destruct (pf_sorted _ _ F) as [kl [K [E L]]]. rewrite K, <- E.
   unfold server_check. rewrite AQ.
   rewrite (builder_check_none c p u G PS U), (build_shards_ok sl (pf_keys _ _ F)), DR.
